@@ -111,7 +111,9 @@ func NewClient(ops ClientOps) *Client {
 // init initializes the client (if not already initialized)
 // and returns any initialization error.
 func (c *Client) init() error {
+	simOnceEnter(&c.initOnce)
 	c.initOnce.Do(c.initWork)
+	simOnceExit(&c.initOnce)
 	return c.initErr
 }
 
@@ -333,6 +335,7 @@ func (c *Client) mergeLatest(msg []byte) error {
 		}
 
 		// msg (== config) is in the past, so we need to update it.
+		simLock(&c.latestMu, "latestMu#1")
 		c.latestMu.Lock()
 		latestMsg := c.latestMsg
 		c.latestMu.Unlock()
@@ -360,6 +363,7 @@ const (
 func (c *Client) mergeLatestMem(msg []byte) (when int, err error) {
 	if len(msg) == 0 {
 		// Accept empty msg as the unsigned, empty timeline.
+		simLock(&c.latestMu, "latestMu#2")
 		c.latestMu.Lock()
 		latest := c.latest
 		c.latestMu.Unlock()
@@ -381,6 +385,7 @@ func (c *Client) mergeLatestMem(msg []byte) (when int, err error) {
 	// Other lookups may be calling mergeLatest with other heads,
 	// so c.latest is changing underfoot. We don't want to hold the
 	// c.mu lock during tile fetches, so loop trying to update c.latest.
+	simLock(&c.latestMu, "latestMu#3")
 	c.latestMu.Lock()
 	latest := c.latest
 	latestMsg := c.latestMsg
@@ -405,6 +410,7 @@ func (c *Client) mergeLatestMem(msg []byte) (when int, err error) {
 
 		// Install our msg if possible.
 		// Otherwise we will go around again.
+		simLock(&c.latestMu, "latestMu#4")
 		c.latestMu.Lock()
 		installed := false
 		if c.latest == latest {
@@ -477,6 +483,7 @@ func (c *Client) checkTrees(older tlog.Tree, olderNote []byte, newer tlog.Tree, 
 
 // checkRecord checks that record #id's hash matches data.
 func (c *Client) checkRecord(id int64, data []byte) error {
+	simLock(&c.latestMu, "latestMu#5")
 	c.latestMu.Lock()
 	latest := c.latest
 	c.latestMu.Unlock()
@@ -514,7 +521,9 @@ func (r *tileReader) ReadTiles(tiles []tlog.Tile) ([][]byte, error) {
 	var wg sync.WaitGroup
 	for i, tile := range tiles {
 		wg.Add(1)
+		simChild := simSpawn()
 		go func(i int, tile tlog.Tile) {
+			defer simChild()()
 			defer wg.Done()
 			defer func() {
 				if e := recover(); e != nil {
@@ -524,6 +533,7 @@ func (r *tileReader) ReadTiles(tiles []tlog.Tile) ([][]byte, error) {
 			data[i], errs[i] = r.c.readTile(tile)
 		}(i, tile)
 	}
+	simWait()
 	wg.Wait()
 
 	for _, err := range errs {
@@ -606,6 +616,7 @@ func (c *Client) readTile(tile tlog.Tile) ([]byte, error) {
 // markTileSaved records that tile is already present in the on-disk cache,
 // so that a future SaveTiles for that tile can be ignored.
 func (c *Client) markTileSaved(tile tlog.Tile) {
+	simLock(&c.tileSavedMu, "tileSavedMu#6")
 	c.tileSavedMu.Lock()
 	c.tileSaved[tile] = true
 	c.tileSavedMu.Unlock()
@@ -618,6 +629,7 @@ func (r *tileReader) SaveTiles(tiles []tlog.Tile, data [][]byte) {
 	// Determine which tiles need saving.
 	// (Tiles that came from the cache need not be saved back.)
 	save := make([]bool, len(tiles))
+	simLock(&c.tileSavedMu, "tileSavedMu#7")
 	c.tileSavedMu.Lock()
 	for i, tile := range tiles {
 		if !c.tileSaved[tile] {
